@@ -153,4 +153,20 @@ theorem spec_removals_idempotent (m : XAbs) (key : Bytes) :
     clearSpec (clearSpec m).1 = clearSpec m :=
   ⟨SpecLaws.removeFullySpec_idem cfg m key, SpecLaws.clearSpec_idem m⟩
 
+/-- **An operation on one key neither disturbs nor is disturbed by an operation on another**: on
+every healthy cache a removal (or insertion, or lookup) of one key and any index operation on a
+DIFFERENT key, run in either order, each answer the same and leave the same abstract cache — in
+particular removing `k1` before or after anything done to `k2` removes exactly `k1`. -/
+theorem index_ops_on_different_keys_commute (env1 env2 : Env) (op1 op2 : IOp) (fs : FS)
+    (h : Healthy cfg cache fs) (hl : HexLen cfg) (w1 : OpWF cfg op1) (w2 : OpWF cfg op2)
+    (hk : SpecLaws.iopKey op1 ≠ SpecLaws.iopKey op2) :
+    ∃ a b, (cRunOps cfg cache [(env1, .index op1), (env2, .index op2)] fs).1 = [a, b] ∧
+      (cRunOps cfg cache [(env2, .index op2), (env1, .index op1)] fs).1 = [b, a] ∧
+      absCache cfg cache (cRunOps cfg cache [(env1, .index op1), (env2, .index op2)] fs).2 =
+        absCache cfg cache (cRunOps cfg cache [(env2, .index op2), (env1, .index op1)] fs).2 :=
+  SpecLaws.index_ops_commute cfg cache env1 env2 op1 op2 fs h hl w1 w2 hk
+
+/-- The hypotheses are satisfiable: a removal of `[1]` and a lookup of `[2]` on the empty cache. -/
+example : SpecLaws.iopKey (.del [1]) ≠ SpecLaws.iopKey (.look [2]) := by decide
+
 end Cacache.C09x
